@@ -35,12 +35,25 @@ def source_of(tree):          # top-level: picklable for Population.map
 SWC = "1 1 0 0 0 1 -1\n2 3 1 0 0 1 1\n3 3 2 0 0 1 2\n"
 
 
+def swc_of(name):
+    """a chain whose number of nodes (3..6) depends on the file's name: the trees of a population differ in size"""
+    n = 3 + sum(ord(ch) for ch in name) % 4
+    return "".join("%d %d %d 0 0 1 %d\n" % (k + 1, 1 if k == 0 else 3, k, -1 if k == 0 else k) for k in range(n)), n
+
+
+def scratch_parent():
+    """a memory file system lists a directory in the order its entries were made (directories filled in different sequences then list the same
+    names in different orders); elsewhere the default temporary directory"""
+    d = "/dev/shm"
+    return d if os.path.isdir(d) and os.access(d, os.W_OK) else None
+
+
 def exec_hist(c):
     from swcgeom.core import Population, Populations
     from swcgeom.core.population import ChainTrees
     ensure_hook()
     dirs = c["dirs"]
-    tmp = tempfile.mkdtemp(prefix="verif_pop_")
+    tmp = tempfile.mkdtemp(prefix="verif_pop_", dir=scratch_parent())
     roots = []
     try:
         for r, names in enumerate(dirs, 1):
@@ -49,11 +62,15 @@ def exec_hist(c):
             os.makedirs(os.path.join(root, "empty_folder"), exist_ok=True)
             with open(os.path.join(root, "notes.txt"), "w") as f:          # not an swc file: must not be listed
                 f.write("x")
-            for nm in names:
+            seq = list(names)
+            seq = seq[r % max(1, len(seq)):] + seq[:r % max(1, len(seq))]          # every directory is filled in its own sequence
+            if r % 2 == 0:
+                seq.reverse()
+            for nm in seq:
                 p = os.path.join(root, nm + ".swc")
                 os.makedirs(os.path.dirname(p), exist_ok=True)
                 with open(p, "w") as f:
-                    f.write(SWC)
+                    f.write(swc_of(nm)[0])
             for nm in c.get("junk", {}).get(str(r), []):
                 p = os.path.join(root, nm)
                 os.makedirs(os.path.dirname(p), exist_ok=True)
@@ -103,7 +120,8 @@ def exec_hist(c):
                     newp = PopulationTransform(Translate(1.0, 0.0, 0.0))(objs[act["o"] - 1])
                     out = []
                     for t in newp:          # the new population holds the transformed trees (x of the three nodes: 0,1,2 -> 1,2,3)
-                        out.append(ident(t.source) if [float(v) for v in t.x()] == [1.0, 2.0, 3.0] else [0, "not-transformed"])
+                        out.append(ident(t.source) if [float(v) for v in t.x()] == [1.0 + k for k in range(len(t.x()))] and len(t.x()) == swc_of(ident(t.source)[1])[1]
+                                   else [0, "not-transformed"])
                     res = ["trees", out]
                 elif a == "len":
                     res = ["len", len(objs[act["o"] - 1])]
@@ -291,6 +309,23 @@ def view_histories(ctx, q):
     return out
 
 
+def zip_histories(ctx, q):
+    """several flat directories sharing most of their file names (each with a name of its own), filled in different sequences: every row of the
+    matched populations holds same-named files"""
+    out = []
+    common = ["n0", "n1", "n2", "n3", "n4", "n5", "n6"]
+    for k in range(4 if q else 12):
+        names = common[: 4 + k % 4]
+        dirs = [names + ["only1"], ["only2"] + names[::-1], names[1:] + names[:1] + ["only3"]][: 2 + k % 2]
+        m = len(names)
+        hist = [{"a": "zip", "roots": list(range(1, len(dirs) + 1)), "order": []}]
+        zs = 2 * len(dirs) + 1
+        hist += [{"a": "zipindex", "o": zs, "key": key} for key in ([0, m - 1, -1, 1, -m] if k % 2 else list(range(m)))]
+        hist += [{"a": "topop", "o": zs}, {"a": "len", "o": zs + 2}, {"a": "iter", "o": zs + 2}]
+        out.append({"dirs": dirs, "junk": {}, "hist": hist})
+    return out
+
+
 def large_histories(ctx, q):
     """populations of a few hundred files walked twice (and indexed from both ends in between): 'at most once' has no size limit"""
     n1, n2 = (150, 140) if q else (400, 300)
@@ -325,6 +360,9 @@ def run(ctx):
         vh = view_histories(ctx, q)
         p = ctx.write_cases("slices-of-views", vh)
         ctx.run_cases("slices-of-views", vh, p, exec_hist, "Trace_Population", keyfn, nontrivial)
+        zh = zip_histories(ctx, q)
+        p = ctx.write_cases("matched-directories", zh)
+        ctx.run_cases("matched-directories", zh, p, exec_hist, "Trace_Population", keyfn, nontrivial)
         lh = large_histories(ctx, q)
         p = ctx.write_cases("large-populations", lh)
         ctx.run_cases("large-populations", lh, p, exec_hist, "Trace_Population", keyfn, nontrivial, per_case_timeout=300)
